@@ -107,3 +107,14 @@ Print Assumptions C04_code_block_read_back.
 Theorem C04_escapes_undone : forall s, strip_backslash (escape_backslashes s) = s.
 Proof. exact strip_escape_backslashes. Qed.
 Print Assumptions C04_escapes_undone.
+
+(* 6. In every container: the code block is written as the opening fence line, then each content line
+   verbatim under the continuation prefix (an empty content line as that prefix without trailing
+   whitespace), then the closing fence. *)
+Theorem C04_code_lines_verbatim : forall lang extra fc flen content st,
+  fst (render_code lang extra fc flen content st)
+  = join [nlc] ((r_prefix st ++ repeat fc (fence_len fc flen content) ++ info_sep fc (info_of lang extra) ++ info_of lang extra)
+                :: map (written_line (r_prefix2 st)) (code_lines content)
+                ++ [r_prefix2 st ++ repeat fc (fence_len fc flen content)]) ++ [nlc].
+Proof. exact code_block_lines. Qed.
+Print Assumptions C04_code_lines_verbatim.
